@@ -41,7 +41,9 @@ def _get_seq_with_type(seq, bufsize=None):
         seq_type = "fill_request"
         if not ct.is_fill_request_el(seq):
             seq = fill_request_seq.FillRequestSeq(
-                *seq, bufsize=bufsize,
+                # bufsize is used only by FillRequestSeq.run (Split and Zip
+                # fill and request themselves); None is not allowed there.
+                *seq, bufsize=bufsize if bufsize is not None else 1,
                 # if we have a FillRequest element inside,
                 # it decides itself when to reset.
                 reset=False,
